@@ -1325,6 +1325,9 @@ pub fn run(args: &Args) -> i32 {
     check.witness(KEY_F14, "give_back_resource_pool_item re-admits a resource checked out before a refresh", witness_give_back_item);
 
     check.section("sequences", seq_strategy, t.pick(50_000, 2_000_000), seq_case);
+    // layer 3: the real prover service over the real pool, harness-controlled in-flight proof computations
+    check.require_label("prover:refresh-with-proof-in-flight").require_label("prover:proof-judged").require_label("prover:judged-while-other-in-flight");
+    check.section("prover", crate::prover::prover_strategy, t.pick(6000, 300_000), crate::prover::prover_case);
 
     #[cfg(c18_rewrite_ok)]
     {
